@@ -74,6 +74,10 @@ class Transformer:
                     except AttributeError as attribute_error:
                         if type(classobject) is not UFLType:
                             raise attribute_error
+                        if c is not object:
+                            # A mixin that is not a UFL type: keep
+                            # looking among the remaining superclasses
+                            continue
                         # Default handler name for UFL types
                         handler_name = UFLType._ufl_handler_name_
                     function = getattr(self, handler_name, None)
